@@ -26,9 +26,9 @@ const (
 type parseClass int
 
 const (
-	inGrammar        parseClass = iota // reference value available
-	outOfDomain                        // in grammar, exponent outside ±refMaxExp (counted only)
-	outsideGrammar                     // not a decimal numeral according to the reference grammar
+	inGrammar      parseClass = iota // reference value available
+	outOfDomain                      // in grammar, exponent outside ±refMaxExp (counted only)
+	outsideGrammar                   // not a decimal numeral according to the reference grammar
 )
 
 var pow10cache [2049]*big.Int
